@@ -84,7 +84,7 @@ func propC11(c *ctx) error {
 		model := map[string]J{}
 		for _, op := range ops {
 			src := a.expr + " " + op + " " + b.expr
-			out := implEval(src, []any{data.g}, nil)
+			out := implEvalStable(src, []any{data.g})
 			got[op] = out.R + ":" + out.V
 			if c.d != nil {
 				m, err := c.d.ask(J{"op": "eval", "src": src, "data": data.j})
